@@ -87,8 +87,6 @@ Inductive err :=
 | EBodyTooBig
 | EMalformed      (* request line / status line / header line syntax *)
 | EUrl            (* net/url refused the Request-URI *)
-| EChannel        (* interleaved channel not in the session's channel table *)
-| ERtpHeader      (* RTP header of a media-channel frame does not parse *)
 | EFuel.          (* loop fuel exhausted: excluded by [*_fuel] lemmas *)
 
 Inductive res (A : Type) : Type :=
@@ -538,7 +536,10 @@ Fixpoint find_chan (cfg : list Z) (ch : Z) (i : Z) : option Z :=
 Inductive event :=
 | EvReq (q : request)
 | EvResp (p : response)
-| EvPack (ch : Z) (data : bytes).
+| EvPack (ch : Z) (data : bytes)
+| EvSkip.         (* a whole frame consumed and dropped: channel not in the session's table, or the
+                     RTP header of a media-channel frame does not parse (ReadPacket returns the
+                     packet together with an error; receive logs it and goes on) *)
 
 (* ReadPacket.  [recoverp = false] is the code before the repair. *)
 Definition read_packet_gen (recoverp : bool) (cfg : list Z) (s : bytes) : res event :=
@@ -550,15 +551,15 @@ Definition read_packet_gen (recoverp : bool) (cfg : list Z) (s : bytes) : res ev
       let data := take_n (Z.to_nat n) s' in
       let rest := skipn (Z.to_nat n) s' in
       match find_chan cfg b1 0 with
-      | None => Err EChannel
+      | None => Ok EvSkip rest
       | Some i =>
           let ch := i mod 256 in
           if (ch =? 0) || (ch =? 2) then
             match rtp_hdr_check data with
             | HOk => Ok (EvPack ch data) rest
-            | HErr => Err ERtpHeader
+            | HErr => Ok EvSkip rest
             | HFuel => Err EFuel
-            | HPanic => if recoverp then Err ERtpHeader else Panic
+            | HPanic => if recoverp then Ok EvSkip rest else Panic
             end
           else Ok (EvPack ch data) rest
       end
@@ -733,6 +734,7 @@ Definition event_eqb (with_url : bool) (a b : event) : bool :=
       bytes_eqb (p_proto x) (p_proto y) && (p_code x =? p_code y) && bytes_eqb (p_status x) (p_status y) &&
       hdr_eqb (p_hdr x) (p_hdr y) && bytes_eqb (p_body x) (p_body y)
   | EvPack c d, EvPack c' d' => (c =? c') && bytes_eqb d d'
+  | EvSkip, EvSkip => true
   | _, _ => false
   end.
 
